@@ -55,7 +55,7 @@ def gen_tree(rng, max_depth=4, p_sub=0.6, mixed_case=True, noncmake=True, rich=F
             else:
                 have_lower = True
             rel = os.path.join(d, s + ext)
-            t.files[rel] = cmake_text(rel, rng, rich)
+            t.files[rel] = cmake_text(rel, rng, rich) if rng.random() > 0.06 else ""      # some files are zero bytes long
             if case_twins and s in twins and rng.random() < 0.5:
                 rel2 = os.path.join(d, twins[s] + ".cmake")
                 t.files[rel2] = cmake_text(rel2, rng, rich)
@@ -67,6 +67,9 @@ def gen_tree(rng, max_depth=4, p_sub=0.6, mixed_case=True, noncmake=True, rich=F
                 sd = os.path.join(d, n)
                 t.dirs.add(sd)
                 fill(sd, depth + 1)
+                if rng.random() < 0.15 and not n.endswith(".cmake"):
+                    # a CMake file whose stem is the name of the sub-directory next to it
+                    t.files[os.path.join(d, n + ".cmake")] = cmake_text(os.path.join(d, n + ".cmake"), rng, rich)
                 if case_twins and n in twins and rng.random() < 0.5:
                     sd2 = os.path.join(d, twins[n])
                     t.dirs.add(sd2)
